@@ -99,7 +99,8 @@ ValueFails(e) ==    \* the call returned a value: is it what the name denotes?
                      ELSE F(r.t = "Double", "Abs of a non-numeric argument is not a Double"))
     [] f \in {"ceil", "ceiling", "floor", "round", "trunc", "truncate"} ->
          LET x == AsDouble8(e.mgr, a[1]) IN
-         F(r.t = (IF f \in {"trunc", "truncate"} THEN "Long" ELSE "Double"), "wrong result type")
+         \* (which numeric type carries the rounded value is not stated; that it is always the same one is checked by FixedFails)
+         F(r.t \in Numeric, "a rounding function does not return a number")
          \o (IF x[1] THEN F(Exact(r) /\ Num8(r) = (CASE f \in {"ceil", "ceiling"} -> Ceil8(x[2]) [] f = "floor" -> Floor8(x[2])
                                                       [] f = "round" -> Round8(x[2]) [] OTHER -> Trunc8(x[2])), "rounding function gives the wrong value") ELSE "")
     [] f \in OneMath -> LET x == AsDouble8(e.mgr, a[1])  an == IF x[1] THEN Anchor(f, x[2]) ELSE <<FALSE, 0>> IN
@@ -122,10 +123,10 @@ ValueFails(e) ==    \* the call returned a value: is it what the name denotes?
                               /\ (n < 4 \/ (a[4].n >= 0 /\ a[4].n <= 23)) /\ (n < 5 \/ (a[5].n >= 0 /\ a[5].n <= 59)) /\ (n < 6 \/ (a[6].n >= 0 /\ a[6].n <= 59))
                       THEN F(r.t = "DateTime" /\ e.parts = Pad(a, 6, <<0, 1, 1, 0, 0, 0>>), "Date construction gives the wrong calendar components") ELSE F(r.t = "DateTime", "Date does not return a date-time"))
     [] f = "dayofweek" -> (IF a[1].t = "DateTime" /\ Len(e.aparts) = 3 /\ e.aparts[1] >= 1900 /\ e.aparts[1] <= 2200
-                           THEN F(r.t = "Integer" /\ r.k = "int" /\ r.n = Zeller(e.aparts[1], e.aparts[2], e.aparts[3]), "DayOfWeek is not the weekday of the date") ELSE F(r.t = "Integer", "DayOfWeek does not return an Integer"))
+                           THEN F(r.t \in Integral /\ r.k = "int" /\ r.n = Zeller(e.aparts[1], e.aparts[2], e.aparts[3]), "DayOfWeek is not the weekday of the date") ELSE F(r.t \in Integral, "DayOfWeek does not return an integer"))
     \* (which floating-point type carries the constant / the random number is not stated: the host's value at that type's precision)
     [] f \in {"e", "pi"} -> F((r.t = "Float" /\ r.s = e.want) \/ (r.t = "Double" /\ r.s = e.want64), "E / Pi is not the constant")
-    [] f = "ticks" -> F(r.t = "Long" /\ r.k \in {"int", "none"} /\ e.rsec >= e.t0 /\ e.rsec <= e.t1, "Ticks is not within the call interval")
+    [] f = "ticks" -> F(r.t \in Integral /\ r.k \in {"int", "none"} /\ e.rsec >= e.t0 /\ e.rsec <= e.t1, "Ticks is not within the call interval")
     [] f = "now" -> F(r.t = "DateTime" /\ e.rsec >= e.t0 /\ e.rsec <= e.t1, "Now is not within the call interval")
     [] f \in {"rnd", "random"} -> F(r.t \in {"Float", "Double"} /\ e.n24 >= 0 /\ e.n24 < 16777216, "Rnd is not in [0,1)")
     [] OTHER -> ""
